@@ -68,32 +68,134 @@ def task_get_error(ctx):
                     else:
                         ctx.prove(tag + ".mol%d.inactive-errors-unchanged" % m, (err.a[m] == pre["err"].a[m]) & (dm_err.a[m] == pre["dm_err"].a[m]) & (dm_el.a[m] == pre["dm_el"].a[m]), pc=p.pc)
                         ok_before = (abs(pre["err"].a[m]) <= eps) & (pre["dm_err"].a[m] <= 2 * eps) & (pre["dm_el"].a[m] <= 15 * eps)
-                        if not use_diis:
-                            ctx.prove(tag + ".mol%d.inactive-within-thresholds-stays-converged" % m, Sym(E.implies(ok_before.n, conv.n)), pc=p.pc)
+                        if use_diis:
+                            ok_before = ok_before & (diis.a[m] <= 50 * eps)
+                        ctx.prove(tag + ".mol%d.inactive-within-thresholds-stays-converged" % m, Sym(E.implies(ok_before.n, conv.n)), pc=p.pc)
+                        ctx.prove(tag + ".mol%d.inactive-beyond-a-threshold-is-flagged" % m, Sym(E.implies((~ok_before).n, flag.n)), pc=p.pc)
     x = real("x")
     ctx.canary("loosened-threshold", Sym(E.implies((x <= 3 * real("eps")).n, (x <= 2 * real("eps")).n)), [real("eps") > 0])
     ctx.assume_note("shape-bounded: two molecules, 2x2 densities; thresholds read from the module constants (2, 15, 50)")
 
 
 # ---------------------------------------------------------------------------
-# O2 constant-mixing driver
+# O2 SCF drivers: one loop contract for the constant-mixing, adaptive-mixing and Pulay drivers
+
+NB = 4  # orbitals per matrix in the fixture (molsize 1)
+NFOCK = 10
+DIIS_STATES = [(0, -1)] + [(c, c - 1) for c in range(1, NFOCK + 1)] + [(NFOCK, j) for j in range(0, NFOCK - 1)]
 
 
-class SCF0Loop(W.LoopContract):
-    def __init__(self, env):
-        self.env = env
+def _rows_eq(a, b):
+    return E.and_(*[E.eq(E.node_of(x), E.node_of(y)) for x, y in zip(np.asarray(a, dtype=object).reshape(-1), np.asarray(b, dtype=object).reshape(-1))])
+
+
+def _flat(t, m):
+    return tuple(E.node_of(v) for v in t.a[m].reshape(-1))
+
+
+def fock_of(P):
+    """callee contract of fock_restricted used here: row m of the result is a function of row m of the density."""
+    out = np.empty(P.a.shape, dtype=object)
+    for m in range(P.a.shape[0]):
+        flat = _flat(P, m)
+        for k, pos in enumerate(np.ndindex(*P.a.shape[1:])):
+            out[(m,) + pos] = Sym(E.uf("Fock_%d" % k, flat, E.R))
+    return st.T(out, st.float64, True)
+
+
+def eel_of(P, F, H):
+    return st.tensor([Sym(E.uf("Eel", _flat(P, m) + _flat(F, m) + _flat(H, m), E.R)) for m in range(P.a.shape[0])]) if P.a.shape[0] else st.zeros(0)
+
+
+def dens_row(Frow_nodes, ids):
+    return [Sym(E.uf("Dens_%d" % k, tuple(Frow_nodes) + tuple(E.node_of(i) for i in ids), E.R)) for k in range(NB * NB)]
+
+
+def mix_row(k, Pprev, Pcur, old2):
+    args = (E.node_of(k),) + tuple(E.node_of(v) for v in Pprev) + tuple(E.node_of(v) for v in Pcur) + tuple(E.node_of(v) for v in old2)
+    return [Sym(E.uf("Mix_%d" % j, args, E.R)) for j in range(NB * NB)]
+
+
+def _thresholds():
+    import seqm.seqm_functions.scf_loop as S_
+
+    return (E.frac_of_float(float(S_.CONVERGENCE_DM_ERROR_FACTOR)), E.frac_of_float(float(S_.CONVERGENCE_DM_ELEMENT_FACTOR)), E.frac_of_float(float(S_.CONVERGENCE_DIIS_FACTOR)))
+
+
+def within(err, dm, dme, diis, m, eps):
+    """the convergence predicate of get_error on the stored error arrays of molecule m (proved for the real function in task get_error)"""
+    f_dm, f_el, f_di = _thresholds()
+    ok = (abs(err.a[m]) <= eps) & (dm.a[m] <= eps * f_dm) & (dme.a[m] <= eps * f_el)
+    if diis is not None:
+        ok = ok & (diis.a[m] <= eps * f_di)
+    return ok
+
+
+class DriverLoop(W.LoopContract):
+    """Loop head invariant Inv(state):
+         I1  F = Fock(P) for every molecule
+         I2  notconverged[m] => Eelec[m] = Eel(P[m], F[m], Hcore[m])
+         I5  not notconverged[m] => the stored error arrays of m are within the thresholds (so get_error keeps it converged)
+         I3  (Pulay) Nnot = number of not-converged molecules, reset_diis is False, (cFock, counter) in the 20 reachable DIIS states
+       Back edge / break: converged rows frozen; active rows follow the driver's update rule with THEIR OWN orbital/electron
+       counts; the convergence test ran once, saw the current density, the loop-head density as `Pold`, the energies of both and
+       (Pulay) the commutator residual of the loop-head state; flags are its result; Inv re-established."""
+
+    #: arrays the callee get_error overwrites in place (its frame), not visible as stores in the loop body
+    also_modifies = ("err", "dm_err", "dm_element_err")
+
+    def __init__(self, env, which):
+        self.env, self.which = env, which
+
+    # -- invariant ---------------------------------------------------------
+    def _inv(self, L, tag):
+        e = self.env
+        P, F, nc = L["P"], L["F"], L["notconverged"]
+        oblige(tag + ".Inv.F=Fock(P)", _rows_eq(F.a, fock_of(P).a))
+        want = eel_of(P, F, L["Hcore"])
+        for m in range(2):
+            oblige(tag + ".Inv.active-molecule-energy-is-that-of-its-density[mol%d]" % m, Sym(E.implies(E.node_of(nc.a[m]), E.eq(E.node_of(L["Eelec"].a[m]), want.a[m].n))))
+        for m in range(2):
+            ok = within(L["err"], L["dm_err"], L["dm_element_err"], L.get("diis_error") if self.which == 2 else None, m, e["eps"])
+            oblige(tag + ".Inv.converged-molecule's-stored-errors-are-within-the-thresholds[mol%d]" % m, Sym(E.implies(E.not_(E.node_of(nc.a[m])), ok.n)))
+        if self.which == 2:
+            cnt = sum(Sym(E.ite(E.node_of(nc.a[m]), E.const(1), E.const(0))) for m in range(2))
+            oblige(tag + ".Inv.Nnot-counts-the-active-molecules", S(L["Nnot"]) == cnt)
+            rd = L["reset_diis"]
+            rd = rd.a.reshape(())[()] if isinstance(rd, st.T) else rd
+            oblige(tag + ".Inv.reset_diis-is-False", E.not_(E.node_of(rd)) if isinstance(rd, Sym) else E.const(not rd))
+            oblige(tag + ".Inv.diis-window-state-reachable", E.const((int(L["cFock"]), int(L["counter"])) in DIIS_STATES))
+
+    def enter(self, L, it):
+        self._inv(L, "entry")
+        self.env["Hcore"] = L["Hcore"]
 
     def havoc(self, L, it):
         e = self.env
         e["k"] = fresh_int("k")
         nc = st.T(np.array([boolean("nc0"), boolean("nc1")], dtype=object), st.bool, True)
-        e["nc_head"] = nc.clone()
-        P = st.symbolic((2, 2, 2), "Phead")
-        e["P_head"] = P.clone()
-        e["calls"] = []
-        return {"notconverged": nc, "P": P, "Pold": st.symbolic((2, 2, 2), "Poldh"), "Pnew": st.symbolic((2, 2, 2), "Pnewh"), "F": st.symbolic((2, 2, 2), "Fh"),
-                "Eelec": st.symbolic((2,), "Eh"), "Eelec_new": st.symbolic((2,), "Enh"), "err": st.symbolic((2,), "errh"), "dm_err": st.symbolic((2,), "dmh"),
-                "dm_element_err": st.symbolic((2,), "dmeh"), "max_dm_err": S(0.0), "max_dm_element_err": S(0.0), "Nnot": 0}
+        P = st.symbolic((2, NB, NB), "Phead")
+        F = fock_of(P)
+        ee = eel_of(P, F, L["Hcore"])
+        Eelec = st.T(np.array([Sym(E.ite(E.node_of(nc.a[m]), ee.a[m].n, E.var("Eold_%d" % m, E.R))) for m in range(2)], dtype=object), st.float64, True)
+        e.update(nc_head=nc.clone(), P_head=P.clone(), F_head=F.clone(), E_head=Eelec.clone(), calls=[], dens_calls=[], exit_kind=None)
+        new = {"notconverged": nc, "P": P, "Pold": st.symbolic((2, NB, NB), "Poldh"), "Pnew": st.symbolic((2, NB, NB), "Pnewh"), "F": F, "Eelec": Eelec,
+               "Eelec_new": st.symbolic((2,), "Enh"), "err": st.symbolic((2,), "errh"), "dm_err": st.symbolic((2,), "dmh"), "dm_element_err": st.symbolic((2,), "dmeh"),
+               "max_dm_err": S(0.0), "max_dm_element_err": S(0.0),
+               "Nnot": sum(Sym(E.ite(E.node_of(nc.a[m]), E.const(1), E.const(0))) for m in range(2))}
+        if self.which == 1:
+            new["Pold2_diag"] = st.symbolic((2, NB), "Pold2h")
+            e["old2_head"] = new["Pold2_diag"].clone()
+        if self.which == 2:
+            cF, cn = e["diis_state"]
+            ntri = NB * (NB + 1) // 2
+            new.update(cFock=cF, counter=cn, reset_diis=False, FOCK=st.symbolic((2, NFOCK, NB, NB), "FOCKh"), FPPF_packed=st.symbolic((2, NFOCK, ntri), "FPPFh"),
+                       EMAT=st.symbolic((2, NFOCK + 1, NFOCK + 1), "EMATh"), diis_error=st.symbolic((2,), "diish"))
+            e["diis_head"] = new["diis_error"].clone()
+        for m in range(2):
+            ok = within(new["err"], new["dm_err"], new["dm_element_err"], new.get("diis_error"), m, e["eps"])
+            assume(Sym(E.implies(E.not_(E.node_of(nc.a[m])), ok.n)))
+        return new
 
     def guard(self, L, it):
         return self.env["k"] < S(len(it))
@@ -101,99 +203,283 @@ class SCF0Loop(W.LoopContract):
     def target(self, L, it):
         return self.env["k"]
 
-    def _frozen(self, L, tag):
+    # -- one iteration -----------------------------------------------------
+    def _step(self, L, tag):
         e = self.env
+        ncH, PH, FH = e["nc_head"], e["P_head"], e["F_head"]
+        P = L["P"]
+        ids = e["ids"]
         for m in range(2):
-            same = E.and_(*[E.eq(a.n, b.n) for a, b in zip(L["P"].a[m].reshape(-1), e["P_head"].a[m].reshape(-1))])
-            oblige("%s.converged-row-frozen[mol%d]" % (tag, m), Sym(E.implies(E.not_(e["nc_head"].a[m].n), same)))
+            oblige("%s.converged-row-frozen[mol%d]" % (tag, m), Sym(E.implies(E.not_(E.node_of(ncH.a[m])), _rows_eq(P.a[m], PH.a[m]))))
+        # update rule of the active rows
+        for m in range(2):
+            own = [ids[q].a[m] for q in ("nsh", "nh", "nhy", "nocc")]
+            if self.which == 0:
+                alpha = e["alpha"]
+                d = dens_row(_flat(FH, m), own)
+                want = [alpha * PH.a[m].reshape(-1)[j] + (1 - alpha) * d[j] for j in range(NB * NB)]
+            elif self.which == 1:
+                d = dens_row(_flat(FH, m), own)
+                want = mix_row(e["k"], PH.a[m].reshape(-1), d, e["old2_head"].a[m].reshape(-1))
+            else:
+                cF = e["diis_state"][0] + 1 if e["diis_state"][0] < NFOCK else NFOCK
+                if cF < 2:
+                    d = dens_row(_flat(FH, m), own)
+                    half = Fraction(1, 2)
+                    want = [half * PH.a[m].reshape(-1)[j] + half * d[j] for j in range(NB * NB)]
+                else:
+                    want = dens_row(tuple(E.node_of(v) for v in e["F_extrap"].a[m].reshape(-1)), own)
+            oblige("%s.active-row-update-uses-its-own-molecule's-Fock-matrix-and-electron-count[mol%d]" % (tag, m),
+                   Sym(E.implies(E.node_of(ncH.a[m]), _rows_eq(P.a[m], np.array(want, dtype=object)))))
+            if self.which == 1:
+                diag = [PH.a[m, j, j] for j in range(NB)]
+                oblige("%s.two-steps-back-diagonal-is-the-loop-head-diagonal[mol%d]" % (tag, m), Sym(E.implies(E.node_of(ncH.a[m]), _rows_eq(L["Pold2_diag"].a[m], np.array(diag, dtype=object)))))
         if len(e["calls"]) != 1:
             oblige("%s.one-convergence-test-per-iteration" % tag, E.FALSE)
             return
-        Pc, flags = e["calls"][0]
-        oblige("%s.test-saw-the-current-density" % tag, E.and_(*[E.eq(a.n, b.n) for a, b in zip(L["P"].a.reshape(-1), Pc.a.reshape(-1))]))
-        oblige("%s.flags-are-the-test-result" % tag, E.and_(*[E.eq(E.node_of(a), E.node_of(b)) for a, b in zip(L["notconverged"].a.reshape(-1), flags.a.reshape(-1))]))
+        c = e["calls"][0]
+        oblige("%s.test-saw-the-current-density" % tag, _rows_eq(P.a, c["P"].a))
+        oblige("%s.flags-are-the-test-result" % tag, _rows_eq(L["notconverged"].a, c["flags"].a))
+        oblige("%s.test-was-told-which-molecules-were-active" % tag, _rows_eq(c["active"].a, ncH.a))
+        Fn = fock_of(P)
+        een = eel_of(P, Fn, e["Hcore"])
+        for m in range(2):
+            act = E.node_of(ncH.a[m])
+            oblige("%s.test-compared-against-the-loop-head-density[mol%d]" % (tag, m), Sym(E.implies(act, _rows_eq(c["Pold"].a[m], PH.a[m]))))
+            oblige("%s.test-new-energy-is-that-of-the-current-density[mol%d]" % (tag, m), Sym(E.implies(act, E.eq(E.node_of(c["Een"].a[m]), een.a[m].n))))
+            oblige("%s.test-old-energy-is-that-of-the-loop-head-density[mol%d]" % (tag, m), Sym(E.implies(act, E.eq(E.node_of(c["Ee"].a[m]), E.node_of(e["E_head"].a[m])))))
+            if self.which == 2:
+                Fm, Pm = FH.a[m], PH.a[m]
+                comm = [abs(sum(Fm[i, q] * Pm[q, j] - Pm[i, q] * Fm[q, j] for q in range(NB))) for i in range(NB) for j in range(i, NB)]
+                got = c["diis"].a[m]
+                oblige("%s.test-residual-bounds-the-commutator-[F(P),P]-of-the-loop-head-state[mol%d]" % (tag, m),
+                       Sym(E.implies(act, E.and_(*[(got >= x).n for x in comm]))))
+        self._inv(L, tag)
 
     def back(self, L):
-        self._frozen(L, "iterate")
+        self._step(L, "iterate")
 
     def brk(self, L):
-        self._frozen(L, "exit-converged")
-        self.env["broke"] = True
+        self._step(L, "exit-converged")
+        self.env["exit_kind"] = "break"
 
 
-def task_scf_forward0(ctx):
-    fn_t = SCF + ":scf_forward0"
-    ctx.under_contract(fn_t, loops_cut=["for k in range(MAX_ITER + 1)"], stubs=["fock", "elec_energy", "make_Pnew_factory", "get_error (contract of task get_error)"])
+def builtins_bool(x):
+    import builtins
+
+    if isinstance(x, st.T):
+        x = x.a.reshape(())[()]
+    if isinstance(x, Sym):
+        if x.n.op == "const":
+            return builtins.bool(x.n.val)
+        raise Unmodelled("symbolic reset_diis at a point where the invariant says it is False")
+    return builtins.bool(x)
+
+
+class DiisBlock(W.BlockContract):
+    """Contract of the DIIS extrapolation statement `if cFock >= 2:` of scf_forward2: it overwrites the Fock matrices of the
+    active molecules by SOME matrices (any linear combination of stored ones) and sets reset_diis to some boolean; nothing
+    else that is read afterwards.  What the extrapolated matrix is does not matter for C03: the convergence test that follows
+    measures the true commutator of the loop-head state and the density change."""
+
+    def __init__(self, env):
+        self.env = env
+
+    def apply(self, L):
+        F, nc = L["F"], L["notconverged"]
+        fx = st.symbolic((2, NB, NB), "Fextrap")
+        self.env["F_extrap"] = fx
+        F[nc] = fx[nc]
+        return {"reset_diis": st.T(np.array(fresh_bool("reset"), dtype=object).reshape(()), st.bool, True)}
+
+
+def replay_batch_scf(converger):
+    def rp(model):
+        """real code: every molecule of a zero-padded heterogeneous batch must get the energy and electron count it gets alone."""
+        import torch
+        from seqm.seqm_functions.constants import Constants
+        from seqm.Molecule import Molecule
+        from seqm.ElectronicStructure import Electronic_Structure
+
+        torch.set_default_dtype(torch.float64)
+        params = {"method": "AM1", "scf_eps": 1e-8, "scf_converger": converger, "sp2": [False, 1e-5], "elements": [0, 1, 6, 8], "learned": [], "pair_outer_cutoff": 1e10, "eig": True}
+        mols = {"H2": ([1, 1], [[0.0, 0, 0], [0.74, 0, 0]]), "H2O": ([8, 1, 1], [[0.0, 0, 0], [0.96, 0, 0], [-0.24, 0.93, 0]]),
+                "CH4": ([6, 1, 1, 1, 1], [[0.0, 0, 0], [0.63, 0.63, 0.63], [-0.63, -0.63, 0.63], [-0.63, 0.63, -0.63], [0.63, -0.63, -0.63]])}
+
+        def run(names):
+            n = max(len(mols[k][0]) for k in names)
+            sp = torch.tensor([mols[k][0] + [0] * (n - len(mols[k][0])) for k in names])
+            xyz = torch.tensor([mols[k][1] + [[0.0, 0, 0]] * (n - len(mols[k][1])) for k in names])
+            mol = Molecule(Constants(), params, xyz, sp)
+            es = Electronic_Structure(params)
+            es(mol)
+            tr = mol.dm.diagonal(dim1=-2, dim2=-1).sum(-1)
+            return [float(v) for v in mol.Etot], [float(v) for v in tr], [bool(v) for v in es.notconverged]
+
+        alone = {k: run([k]) for k in mols}
+        rows, bad = [], False
+        for batch in (["H2", "H2O"], ["H2O", "H2"], ["H2", "CH4", "H2O"]):
+            Et, tr, ncv = run(batch)
+            for i, k in enumerate(batch):
+                dE, dN = abs(Et[i] - alone[k][0][0]), abs(tr[i] - alone[k][1][0])
+                if not ncv[i] and (dE > 1e-5 or dN > 1e-6):
+                    bad = True
+                    rows.append({"batch": batch, "molecule": k, "Etot_in_batch": Et[i], "Etot_alone": alone[k][0][0], "trace_P_in_batch": tr[i], "trace_P_alone": alone[k][1][0], "reported_converged": True})
+        return {"reproduced": bad, "scf_converger": converger, "rows": rows[:6]}
+    return rp
+
+
+def _driver_task(ctx, which, diis_states=None):
+    fn_t = SCF + ":scf_forward%d" % which
+    loop_text = {0: "range(MAX_ITER + 1)", 1: "range(1, MAX_ITER + 1)", 2: "range(k, MAX_ITER + 1)"}[which]
+    loop_ord = {0: 0, 1: 0, 2: 2}[which]
+    stubs_named = ["fock_restricted", "elec_energy", "make_Pnew_factory (contract: row-wise function of the Fock matrix and the molecule's own counts; all arguments row-aligned)",
+                   "get_error (contract of task get_error)", "reshape_Hcore"]
+    if which == 1:
+        stubs_named.append("adaptive_mix (row-wise uninterpreted function of (iteration, previous, new, two-steps-back diagonal))")
+    ctx.under_contract(fn_t, loops_cut=["for k in " + loop_text] + (["statement contract: if cFock >= 2 (DIIS extrapolation)"] if which == 2 else []), stubs=stubs_named)
     env = {}
-    loop = SCF0Loop(env)
-    fn = W.recompile(fn_t, loops={0: ("range(MAX_ITER + 1)", loop)})
+    loop = DriverLoop(env, which)
+    blocks = {"cFock >= 2": DiisBlock(env)} if which == 2 else None
+    fn = W.recompile(fn_t, loops={loop_ord: (loop_text, loop)}, blocks=blocks)
+    ids = {"nsh": st.T(np.array([integer("nsh0"), integer("nsh1")], dtype=object), st.int64, True), "nh": st.T(np.array([integer("nh0"), integer("nh1")], dtype=object), st.int64, True),
+           "nhy": st.T(np.array([integer("nhy0"), integer("nhy1")], dtype=object), st.int64, True), "nocc": st.T(np.array([integer("nocc0"), integer("nocc1")], dtype=object), st.int64, True)}
+    env["ids"] = ids
+    env["alpha"] = real("alpha")
+    env["eps"] = real("eps")
 
     def fock_stub(nmol, molsize, P, M, *a):
-        out = np.empty(P.a.shape, dtype=object)
-        for m in range(P.a.shape[0]):
-            flat = tuple(v.n for v in P.a[m].reshape(-1))
-            for k, pos in enumerate(np.ndindex(*P.a.shape[1:])):
-                out[(m,) + pos] = Sym(E.uf("Fock_%d" % k, flat, E.R))
-        return st.T(out, st.float64, True)
-
-    def ee_stub(P, F, H, doTriu=True):
-        return st.tensor([Sym(E.uf("Eel", tuple(v.n for v in P.a[m].reshape(-1)) + tuple(v.n for v in F.a[m].reshape(-1)), E.R)) for m in range(P.a.shape[0])]) if P.a.shape[0] else st.zeros(0)
+        return fock_of(P)
 
     def factory_stub(*a, **k):
         def inner(F, nsh, nh, nhy, nocc):
+            n = F.a.shape[0]
+            oblige("make_Pnew.precondition.per-molecule-arguments-are-row-aligned", E.const(all(t.a.shape[0] == n for t in (nsh, nh, nhy, nocc))))
             out = np.empty(F.a.shape, dtype=object)
-            for m in range(F.a.shape[0]):
-                flat = tuple(v.n for v in F.a[m].reshape(-1))
-                for kk, pos in enumerate(np.ndindex(*F.a.shape[1:])):
-                    out[(m,) + pos] = Sym(E.uf("Dens_%d" % kk, flat, E.R))
+            for m in range(n):
+                own = [t.a[m] if m < t.a.shape[0] else t.a[-1] for t in (nsh, nh, nhy, nocc)]
+                out[m] = np.array(dens_row(_flat(F, m), own), dtype=object).reshape(NB, NB)
             return st.T(out, st.float64, True)
         return inner
 
+    def mix_stub(scf_iteration, P_prev, P_cur, Pold2_diag, unrestricted):
+        n = P_prev.a.shape[0]
+        oblige("adaptive_mix.precondition.arguments-are-row-aligned", E.const(P_cur.a.shape[0] == n and Pold2_diag.a.shape[0] == n))
+        out = np.empty(P_cur.a.shape, dtype=object)
+        for m in range(n):
+            out[m] = np.array(mix_row(scf_iteration, P_prev.a[m].reshape(-1), P_cur.a[m].reshape(-1), Pold2_diag.a[min(m, Pold2_diag.a.shape[0] - 1)].reshape(-1)), dtype=object).reshape(NB, NB)
+        return st.T(out, st.float64, True), st.diagonal(P_prev, dim1=1, dim2=2)
+
     def get_error_stub(Pold, P, notconverged, size, dm_err, dm_el, Een, err, Ee, eps, diis_error=None, unrestricted=False):
-        flags = st.T(np.array([fresh_bool("ncnew"), fresh_bool("ncnew")], dtype=object), st.bool, True)
-        env["calls"].append((P.clone(), flags.clone()))
+        """contract of get_error (task get_error): the error arrays of the active molecules are overwritten, those of the others
+        kept; the returned flag of EVERY molecule is `stored errors exceed a threshold`."""
+        rec = dict(Pold=Pold.clone(), P=P.clone(), active=notconverged.clone(), Een=Een.clone(), Ee=Ee.clone(), diis=None if diis_error is None else diis_error.clone())
+        flags = np.empty(2, dtype=object)
+        for m in range(2):
+            act = E.node_of(notconverged.a[m])
+            err.a[m] = Sym(E.ite(act, (Een.a[m] - Ee.a[m]).n, E.node_of(err.a[m])))
+            dm_err.a[m] = Sym(E.ite(act, fresh_real("dmerr").n, E.node_of(dm_err.a[m])))
+            dm_el.a[m] = Sym(E.ite(act, fresh_real("dmel").n, E.node_of(dm_el.a[m])))
+            # the flag is a fresh boolean DEFINED as `a stored error exceeds its threshold`; the definition is a ghost assumption
+            # (part of every obligation's hypotheses, not used for path pruning, which keeps the feasibility queries propositional)
+            b = fresh_bool("ncnew")
+            assume(Sym(E.eq(b.n, (~within(err, dm_err, dm_el, diis_error, m, eps)).n)), ghost=True)
+            flags[m] = b
+        flags = st.T(flags, st.bool, True)
+        rec["flags"] = flags.clone()
+        env["calls"].append(rec)
         return flags, S(0.0), S(0.0)
 
-    def thunk():
-        env["broke"] = False
-        env["calls"] = []
-        M = st.symbolic((2, 1, 1), "M")
-        P0 = st.symbolic((2, 2, 2), "P0")
-        z = st.tensor([0, 0])
-        out = fn(M, None, None, None, None, None, None, None, st.tensor([2, 2]), z, z, st.tensor([1, 1]), 2, 1, None, None, None, None, P0, real("eps"), "AM1",
-                 None, None, None, None, None, None, sp2=[False], scf_converger=[0, real("alpha")], verbose=False)
-        return out, env["broke"], list(env["calls"]), env.get("P_head"), env.get("nc_head")
+    stubs = {SCF + ":fock_restricted": fock_stub, SCF + ":elec_energy": eel_of, SCF + ":make_Pnew_factory": factory_stub, SCF + ":get_error": get_error_stub,
+             SCF + ":adaptive_mix": mix_stub, SCF + ":reshape_Hcore": lambda M, nmol, molsize, method: st.symbolic((2, NB, NB), "Hc")}
 
-    stubs = {SCF + ":fock_restricted": fock_stub, SCF + ":elec_energy": ee_stub, SCF + ":make_Pnew_factory": factory_stub, SCF + ":get_error": get_error_stub,
-             SCF + ":reshape_Hcore": lambda M, nmol, molsize, method: st.symbolic((2, 2, 2), "Hc")}
-    ex = ctx.explore(thunk, stubs=stubs, name="scf_forward0", max_paths=400)
-    kinds = {"back": 0, "break": 0, "cap": 0}
-    for p in ex.paths:
-        if p.raised is not None:
-            ctx.fail("raises@p%d" % p.path_id, repr(p.raised) + p.notes.get("traceback", "")[-700:])
-            continue
-        if p.ended:
-            kinds["back"] += 1
-            continue
-        (P, nc), broke, calls, P_head, nc_head = p.value
-        if broke:
-            kinds["break"] += 1
-            Pc, flags = calls[-1]
-            ctx.prove("return(converged).density-is-the-one-the-last-test-saw@p%d" % p.path_id, E.and_(*[E.eq(a.n, b.n) for a, b in zip(P.a.reshape(-1), Pc.a.reshape(-1))]), pc=p.pc)
-            ctx.prove("return(converged).every-flag-is-false@p%d" % p.path_id, E.and_(*[E.not_(E.node_of(f)) for f in nc.a.reshape(-1)]), pc=p.pc)
-        else:
-            kinds["cap"] += 1
-            # iteration cap reached: the state returned is the loop-head state, whose flags are the last test's result (back-edge obligations)
-            ctx.prove("return(cap).density-and-flags-are-the-loop-state@p%d" % p.path_id,
-                      E.and_(*[E.eq(a.n, b.n) for a, b in zip(P.a.reshape(-1), P_head.a.reshape(-1))], *[E.eq(E.node_of(a), E.node_of(b)) for a, b in zip(nc.a.reshape(-1), nc_head.a.reshape(-1))]), pc=p.pc)
-    if min(kinds.values()) == 0:
-        ctx.error("paths", "vacuous exploration %r" % kinds)
-    ctx.discharge(ex.all_obligations())
+    def explore_one(tag):
+        def thunk():
+            env.update(exit_kind=None, calls=[])
+            M = st.symbolic((2, 1, 1), "M")
+            P0 = st.symbolic((2, NB, NB), "P0")
+            args = (M, None, None, None, None, None, None, None, ids["nhy"], ids["nh"], ids["nsh"], ids["nocc"], 2, 1, None, None, None, None, P0, real("eps"), "AM1",
+                    None, None, None, None, None, None)
+            if which == 0:
+                out = fn(*args, sp2=[False], scf_converger=[0, env["alpha"]], verbose=False)
+            elif which == 1:
+                out = fn(*args, sp2=[False], scf_converger=[1], verbose=False)
+            else:
+                out = fn(*args, sp2=[False], verbose=False)
+            return out, env["exit_kind"], list(env["calls"]), env.get("P_head"), env.get("nc_head")
+
+        ex = ctx.explore(thunk, stubs=stubs, name="scf_forward%d%s" % (which, tag), max_paths=600)
+        kinds = {"back": 0, "break": 0, "head": 0}
+        pre = tag + "." if tag else ""
+        for p in ex.paths:
+            if p.raised is not None:
+                ctx.fail("%sraises@p%d" % (pre, p.path_id), repr(p.raised) + p.notes.get("traceback", "")[-900:])
+                continue
+            if p.ended:
+                kinds["back"] += 1
+                continue
+            (P, nc), exit_kind, calls, P_head, nc_head = p.value
+            if exit_kind == "break":
+                kinds["break"] += 1
+                ctx.prove("%sreturn(converged).density-is-the-one-the-last-test-saw@p%d" % (pre, p.path_id), _rows_eq(P.a, calls[-1]["P"].a), pc=p.pc)
+                ctx.prove("%sreturn(converged).every-flag-is-false@p%d" % (pre, p.path_id), E.and_(*[E.not_(E.node_of(f)) for f in nc.a.reshape(-1)]), pc=p.pc)
+            else:
+                kinds["head"] += 1
+                # returned from the loop head (iteration cap, or Pulay's `if Nnot == 0: return`): the state returned is the loop-head
+                # state, whose density is the one the last test saw and whose flags are that test's result (back-edge obligations)
+                ctx.prove("%sreturn(head).density-and-flags-are-the-loop-state@p%d" % (pre, p.path_id), E.and_(_rows_eq(P.a, P_head.a), _rows_eq(nc.a, nc_head.a)), pc=p.pc)
+        ctx.discharge(ex.all_obligations(), prefix=pre, replay=replay_batch_scf([which] if which else [0, 0.3]), classify=lambda m_, r: "batch-row-misalignment" if r and r.get("reproduced") else "other")
+        return kinds
+
+    if which == 2:
+        tot = {"back": 0, "break": 0, "head": 0}
+        for stt in (diis_states or DIIS_STATES):
+            env["diis_state"] = stt
+            k = explore_one("diis(cFock=%d,counter=%d)" % stt)
+            for q in tot:
+                tot[q] += k[q]
+        if tot["back"] == 0 or tot["head"] == 0:
+            ctx.error("paths", "vacuous exploration %r" % tot)
+    else:
+        kinds = explore_one("")
+        if min(kinds.values()) == 0:
+            ctx.error("paths", "vacuous exploration %r" % kinds)
     import seqm.seqm_functions.scf_loop as S_
 
     ctx.prove("iteration-cap-is-finite", S(int(S_.MAX_ITER)) <= 100000)
-    ctx.assume_note("callees replaced by uninterpreted row-wise functions (fock, make_Pnew, elec_energy) and by the contract of get_error; batch of two molecules, 2x2 matrices")
-    ctx.undecided_clause("that the iteration converges; adaptive / Pulay / KSA drivers (scf_forward1/2/3) are covered only by the termination scan and the shared get_error contract")
+    ctx.assume_note("callees replaced by uninterpreted row-wise functions (fock, make_Pnew, elec_energy%s) and by the contract of get_error; batch of two molecules with symbolic orbital/electron counts, %dx%d matrices" % (", adaptive_mix" if which == 1 else "", NB, NB))
+    ctx.undecided_clause("that the iteration converges")
+
+
+def task_scf_forward0(ctx):
+    _driver_task(ctx, 0)
+
+
+def task_scf_forward1(ctx):
+    _driver_task(ctx, 1)
+
+
+def _fw2(ctx, part):
+    """the 20 reachable DIIS window states are split over four tasks (run in parallel by the driver)"""
+    _driver_task(ctx, 2, DIIS_STATES[part::4])
+    ctx.assume_note("DIIS window states of this task: %r (the four tasks scf_forward2_w0..w3 together enumerate all %d reachable (cFock, counter) states; reachability is itself an invariant clause)" % (DIIS_STATES[part::4], len(DIIS_STATES)))
+    ctx.assume_note("statement contract (assumed, frame by inspection of the replaced text): the DIIS extrapolation `if cFock >= 2:` writes only F[notconverged], reset_diis and block-local temporaries")
+
+
+def task_scf_forward2_w0(ctx):
+    _fw2(ctx, 0)
+
+
+def task_scf_forward2_w1(ctx):
+    _fw2(ctx, 1)
+
+
+def task_scf_forward2_w2(ctx):
+    _fw2(ctx, 2)
+
+
+def task_scf_forward2_w3(ctx):
+    _fw2(ctx, 3)
 
 
 # ---------------------------------------------------------------------------
@@ -377,5 +663,5 @@ def task_density_lemmas(ctx):
     ctx.undecided_clause("commutator [F,P] = 0 and idempotency of the returned density in floating point")
 
 
-TASKS_QUICK = ["get_error", "scf_forward0", "termination", "padding_shift", "density_lemmas"]
+TASKS_QUICK = ["get_error", "scf_forward0", "scf_forward1", "scf_forward2_w0", "scf_forward2_w1", "scf_forward2_w2", "scf_forward2_w3", "termination", "padding_shift", "density_lemmas"]
 TASKS_THOROUGH = TASKS_QUICK
